@@ -125,6 +125,11 @@ impl EstablishProof {
             // Incorporate commitments and commitment scalars from proofs.
             .with(&state_proof_builder)
             .with(&close_state_proof_builder)
+            // Incorporate commitment scalars for the publicly revealed values.
+            .with(&close_state_proof_builder.conjunction_commitment_scalars()[0])
+            .with(&close_state_proof_builder.conjunction_commitment_scalars()[1])
+            .with(&close_state_proof_builder.conjunction_commitment_scalars()[3])
+            .with(&close_state_proof_builder.conjunction_commitment_scalars()[4])
             // Incorporate transcript context.
             .with_bytes(&context.as_bytes())
             .finish();
@@ -173,6 +178,11 @@ impl EstablishProof {
             // Incorporate commitment and commitment scalars from proofs.
             .with(&self.state_proof)
             .with(&self.close_state_proof)
+            // Incorporate commitment scalars for the publicly revealed values.
+            .with(&self.channel_id_commitment_scalar)
+            .with(&self.close_tag_commitment_scalar)
+            .with(&self.customer_balance_commitment_scalar)
+            .with(&self.merchant_balance_commitment_scalar)
             // Incorporate transcript context.
             .with_bytes(context.as_bytes())
             .finish();
